@@ -6,7 +6,7 @@
    about whatever the tree contains today, `_refuted` theorems are the defects of the unfixed variants. *)
 Require Import ZArith List Bool Lia.
 Require Import IW.SAFE.Buf IW.SAFE.Buf_proofs IW.SAFE.Ptr IW.SAFE.Ptr_proofs IW.SAFE.Conv2 IW.SAFE.Conv2_proofs
-  IW.SAFE.Unesc IW.SAFE.Unesc_proofs IW.SAFE.Num IW.SAFE.Num_proofs IW.Gen.Facts.
+  IW.SAFE.Unesc IW.SAFE.Unesc_proofs IW.SAFE.Num IW.SAFE.Num_proofs IW.SAFE.Xstr IW.SAFE.Xstr_proofs IW.Gen.Facts.
 Import ListNotations. Local Open Scope Z_scope.
 
 (* ---- JSON pointer parser (_jbl_ptr_pool) *)
@@ -112,3 +112,17 @@ Print Assumptions C17_num_refuted.
 Theorem C17_num_refuted_big : exists p, num_branch false true 0 p = Ok (NI64 123 3) /\ num_branch false true ERANGE p = Ok (NF64 0).
 Proof. exact num_errno_refuted_big. Qed.
 Print Assumptions C17_num_refuted_big.
+
+(* ---- iwxstr: cat / unshift / shift / pop / insert.  xinv = size < asize, buf[size] = 0, buf[0, size) initialised;
+   `Ok` = no memcpy/memmove/store outside the allocation.  Holds for every sequence of operations with size_t arguments. *)
+Theorem C17_xstr_safe : forall siz ops, 0 <= siz -> Forall xop_wf ops ->
+  exists x0 x', xcreate siz = Ok x0 /\ xrun x0 ops = Ok x' /\ xinv x'.
+Proof. exact xstr_safe. Qed.
+Print Assumptions C17_xstr_safe.
+Theorem C17_xstr_step : forall x op, xinv x -> xop_wf op -> exists x', xapply x op = Ok x' /\ xinv x'.
+Proof. exact xapply_ok. Qed.
+Print Assumptions C17_xstr_step.
+Example C17_xstr_ex : exists x0 x', xcreate 1 = Ok x0 /\
+  xrun x0 [XCat [97; 98; 99]; XInsert 1 [120; 121]; XUnshift [122]; XShift 2; XPop 1; XInsert 9 [48]] = Ok x' /\
+  xcontent x' = [Some 120; Some 121; Some 98].
+Proof. do 2 eexists. vm_compute. repeat split; reflexivity. Qed.
